@@ -171,88 +171,114 @@ def run(ctx):
             ctx.note("%s is not reachable from apply_procedure (dead code on this tree): not analysed" % name)
             continue
         n_te += 1
-        tail_table(ctx, fb, f, ee, vidx, depth=3 if ctx.tier == "thorough" else 2)
+        if name == "eval_tail_expression":
+            from . import evaltables as _et
+            _et.rule_tail_nesting(ctx, "C02-tail-returns", 3 if ctx.tier == "thorough" else 2)
+        else:
+            tail_table(ctx, fb, f, ee, vidx, depth=3 if ctx.tier == "thorough" else 2)
     if n_te < 1:
-        ctx.report("C02-tail-returns", "floor", "no tail evaluator analysed")
-    # apply_scheme_procedure hands the last expression to the tail evaluator and returns its result unchanged
-    d0 = mir.defs_of(asp).get(0, [])
-    kinds = sorted({callee(d[2]) if d[0] == "call" else "aggregate/assign" for d in d0})
-    ctx.inst("C02-tail-returns", "apply_scheme_procedure/returns", kinds)
-    okk = all(k.endswith("eval_tail_expression") or k.endswith("from_residual") for k in kinds) and \
-        any(k.endswith("eval_tail_expression") for k in kinds)
-    if not okk:
-        ctx.report("C02-tail-returns", "apply_scheme_procedure/returns", "apply_scheme_procedure must return the tail "
-                   "evaluator's result unchanged (or a propagated error); its result is produced by %s" % kinds, where_of(asp))
+        ctx.undecided("C02-tail-returns", "floor", "no tail evaluator analysed")
+    # the last body form goes to the tail evaluator and what it returns (a value or a pending call) reaches the trampoline
+    # unchanged: decided by the `real-body` row of the trampoline table below; shape-bound fallback:
+    from . import evaltables
+    d_tramp = evaltables.rule_trampoline(ctx, "C02-trampoline", {"rebind", "env"})
+    def _old_returns():
+        d0 = mir.defs_of(asp).get(0, [])
+        kinds = sorted({callee(d[2]) if d[0] == "call" else "aggregate/assign" for d in d0})
+        ctx.inst("C02-tail-returns", "apply_scheme_procedure/returns", kinds)
+        okk = all(k.endswith("eval_tail_expression") or k.endswith("from_residual") for k in kinds) and \
+            any(k.endswith("eval_tail_expression") for k in kinds)
+        if not okk:
+            ctx.report("C02-tail-returns", "apply_scheme_procedure/returns", "apply_scheme_procedure must return the tail "
+                       "evaluator's result unchanged (or a propagated error); its result is produced by %s" % kinds, where_of(asp))
+    ctx.guarded('C02-tail-returns', d_tramp >= 4, _old_returns)
 
     # ------------------------------------------------------------------ C02-trampoline
     ctx.rule("C02-trampoline", "the trampoline iterates: a pending tail call re-binds procedure and arguments and loops")
-    loops = ap.loops()
-    tsw = [x for x in mir.discriminant_switches(ap, "TailExpressionResult")]
-    if not loops or not tsw:
-        ctx.report("C02-trampoline", "shape", "apply_procedure has no loop / does not match on TailExpressionResult", where_of(ap))
-    else:
-        head, body = max(loops, key=lambda hb: len(hb[1]))
-        sb, place, a, targets, other = tsw[0]
-        tci = fb.variant_index("TailExpressionResult", "TailCall")
-        tc_t = targets.get(tci, other)
-        reg = mir.dominated_region(ap, tc_t)
-        calls_in = [callee(t) for _, t in ap.calls(reg)]
-        bad = [c for c in calls_in if c in (ap.name, asp.name, ee.name)]
-        has_epc = epc.name in calls_in
-        reaches_head = head in ap.reachable(tc_t)
-        # returns reachable from the arm only through `?`
-        rets_direct = mir.paths_avoiding(ap, tc_t, ap.return_blocks(),
-                                         [b for b, t in ap.calls(reg) if callee_matches(t, "FromResidual>::from_residual")] + [head])
-        ctx.inst("C02-trampoline", "tailcall-arm", {"calls": [c.rsplit("::", 1)[-1] for c in calls_in if c], "reaches_loop_head": reaches_head})
-        if bad:
-            ctx.report("C02-trampoline", "tailcall-arm/recursion", "the pending tail call is applied by calling %s (Rust "
-                       "recursion) instead of looping" % bad, where_of(ap))
-        if not has_epc or not reaches_head or rets_direct is not None:
-            ctx.report("C02-trampoline", "tailcall-arm/loop", "the TailCall arm does not (evaluate the call, then) go back to "
-                       "the loop head (epc=%s, reaches head=%s, returns=%s)" % (has_epc, reaches_head, rets_direct), where_of(ap))
-        # re-binding: on the back edge path, the applied-procedure place and the args local are assigned from epc's result
-        p = Prov(ap)
-        psw = next(iter(mir.discriminant_switches(ap, "values::Procedure")), None)
-        P = psw[1]["local"]
-        proots = {c for _, c in p.call_roots(P)}
-        app = [(b, t) for b, t in ap.calls() if callee(t) == asp.name]
-        aroots = {c for _, c in p.call_roots(app[0][1]["args"][4])} if app else set()
-        ctx.inst("C02-trampoline", "rebinding", {"procedure_roots": sorted(proots), "args_roots": sorted(aroots)})
-        if epc.name not in proots or epc.name not in aroots:
-            ctx.report("C02-trampoline", "rebinding", "procedure / arguments of the next iteration do not come from the evaluated "
-                       "tail call", where_of(ap))
-        for b, t in app:
-            if b not in body:
-                ctx.report("C02-trampoline", "apply-outside-loop", "apply_scheme_procedure is called outside the trampoline loop", where_of(ap, t))
-        # the environment of the tail call comes from the TailCall, not from apply_procedure's env
-        for b, t in ap.calls(reg):
-            if callee(t) == epc.name and 3 in p.arg_roots(t["args"][2]):
-                ctx.report("C02-trampoline", "tailcall-env", "the tail call is evaluated in the caller's environment", where_of(ap, t))
+    # (decision table evaluated above: evaltables.rule_trampoline — initial application, pending call evaluated once in the
+    # environment it carries, next turn applies the evaluated procedure to the evaluated arguments, no Rust recursion)
+    def _old_tramp():
+        loops = ap.loops()
+        tsw = [x for x in mir.discriminant_switches(ap, "TailExpressionResult")]
+        if not loops or not tsw:
+            ctx.report("C02-trampoline", "shape", "apply_procedure has no loop / does not match on TailExpressionResult", where_of(ap))
+        else:
+            head, body = max(loops, key=lambda hb: len(hb[1]))
+            sb, place, a, targets, other = tsw[0]
+            tci = fb.variant_index("TailExpressionResult", "TailCall")
+            tc_t = targets.get(tci, other)
+            reg = mir.dominated_region(ap, tc_t)
+            calls_in = [callee(t) for _, t in ap.calls(reg)]
+            bad = [c for c in calls_in if c in (ap.name, asp.name, ee.name)]
+            has_epc = epc.name in calls_in
+            reaches_head = head in ap.reachable(tc_t)
+            # returns reachable from the arm only through `?`
+            rets_direct = mir.paths_avoiding(ap, tc_t, ap.return_blocks(),
+                                             [b for b, t in ap.calls(reg) if callee_matches(t, "FromResidual>::from_residual")] + [head])
+            ctx.inst("C02-trampoline", "tailcall-arm", {"calls": [c.rsplit("::", 1)[-1] for c in calls_in if c], "reaches_loop_head": reaches_head})
+            if bad:
+                ctx.report("C02-trampoline", "tailcall-arm/recursion", "the pending tail call is applied by calling %s (Rust "
+                           "recursion) instead of looping" % bad, where_of(ap))
+            if not has_epc or not reaches_head or rets_direct is not None:
+                ctx.report("C02-trampoline", "tailcall-arm/loop", "the TailCall arm does not (evaluate the call, then) go back to "
+                           "the loop head (epc=%s, reaches head=%s, returns=%s)" % (has_epc, reaches_head, rets_direct), where_of(ap))
+            # re-binding: on the back edge path, the applied-procedure place and the args local are assigned from epc's result
+            p = Prov(ap)
+            psw = next(iter(mir.discriminant_switches(ap, "values::Procedure")), None)
+            P = psw[1]["local"]
+            proots = {c for _, c in p.call_roots(P)}
+            app = [(b, t) for b, t in ap.calls() if callee(t) == asp.name]
+            aroots = {c for _, c in p.call_roots(app[0][1]["args"][4])} if app else set()
+            ctx.inst("C02-trampoline", "rebinding", {"procedure_roots": sorted(proots), "args_roots": sorted(aroots)})
+            if epc.name not in proots or epc.name not in aroots:
+                ctx.report("C02-trampoline", "rebinding", "procedure / arguments of the next iteration do not come from the evaluated "
+                           "tail call", where_of(ap))
+            for b, t in app:
+                if b not in body:
+                    ctx.report("C02-trampoline", "apply-outside-loop", "apply_scheme_procedure is called outside the trampoline loop", where_of(ap, t))
+            # the environment of the tail call comes from the TailCall, not from apply_procedure's env
+            for b, t in ap.calls(reg):
+                if callee(t) == epc.name and 3 in p.arg_roots(t["args"][2]):
+                    ctx.report("C02-trampoline", "tailcall-env", "the tail call is evaluated in the caller's environment", where_of(ap, t))
 
-        # -------------------------------------------------------------- C02-frames-dropped
-        ctx.rule("C02-frames-dropped", "no per-iteration accumulation in the trampoline")
-        acc = [callee(t) for b, t in ap.calls(body) if callee_matches(t, "Vec::push", "HashMap::insert", "Extend>::extend",
-                                                                      "VecDeque::push_back", "SmallVec::push", "Vec::insert")]
-        ctx.inst("C02-frames-dropped", "loop-body", {"blocks": len(body), "accumulating_calls": acc})
-        if acc:
-            ctx.report("C02-frames-dropped", "accumulates", "the trampoline accumulates per iteration via %s" % acc, where_of(ap))
-        for f in (ap, asp):
-            for b, i, s in f.stmts():
-                if s["k"] == "assign" and s["place"]["proj"] and any(e["k"] == "field" for e in s["place"]["proj"]) \
-                        and s["place"]["local"] <= f.arg_count and "LexicalScope" in str(s["rv"]):
-                    ctx.report("C02-frames-dropped", f.name + "/stores-frame", "a frame is stored into a parameter's field", where_of(f, span=s["span"]))
+            # -------------------------------------------------------------- C02-frames-dropped
+            ctx.rule("C02-frames-dropped", "no per-iteration accumulation in the trampoline")
+            acc = [callee(t) for b, t in ap.calls(body) if callee_matches(t, "Vec::push", "HashMap::insert", "Extend>::extend",
+                                                                          "VecDeque::push_back", "SmallVec::push", "Vec::insert")]
+            ctx.inst("C02-frames-dropped", "loop-body", {"blocks": len(body), "accumulating_calls": acc})
+            if acc:
+                ctx.report("C02-frames-dropped", "accumulates", "the trampoline accumulates per iteration via %s" % acc, where_of(ap))
+            for f in (ap, asp):
+                for b, i, s in f.stmts():
+                    if s["k"] == "assign" and s["place"]["proj"] and any(e["k"] == "field" for e in s["place"]["proj"]) \
+                            and s["place"]["local"] <= f.arg_count and "LexicalScope" in str(s["rv"]):
+                        ctx.report("C02-frames-dropped", f.name + "/stores-frame", "a frame is stored into a parameter's field", where_of(f, span=s["span"]))
+    ctx.guarded('C02-trampoline', d_tramp >= 4, _old_tramp)
+
+    # ------------------------------------------------------------------ C02-frames-dropped (all loops of the trampoline)
+    ctx.rule("C02-frames-dropped", "no per-iteration accumulation in the trampoline")
+    lb = ap.loop_blocks()
+    acc = [callee(t) for b, t in ap.calls(lb) if callee_matches(t, "Vec::push", "HashMap::insert", "Extend>::extend", "HashSet::insert",
+                                                                "VecDeque::push_back", "SmallVec::push", "Vec::insert")]
+    ctx.inst("C02-frames-dropped", "trampoline-loops", {"blocks": len(lb), "accumulating_calls": acc})
+    if acc:
+        ctx.report("C02-frames-dropped", "accumulates", "the trampoline accumulates per iteration via %s" % acc, where_of(ap))
 
     # ------------------------------------------------------------------ C02-iteration-is-application
     ctx.rule("C02-iteration-is-application", "a turn of the trampoline is an ordinary application: the callee's body runs in a "
              "frame created in that turn as a child of the applied closure's frame, never in a frame carried over from an "
              "earlier turn (necessary for `the loop computes the same result as the bounded iteration`: closures made in "
              "turn i must keep turn i's bindings)")
-    from . import frames
-    fr = frames.analyse(fb)
-    ctx.inst("C02-iteration-is-application", "frame-provenance", {"case": fr.case, "created_in": sorted(fr.makers)})
-    ctx.oblige(not fr.problems)
-    for key, msg, where in fr.problems:
-        ctx.report("C02-iteration-is-application", key, msg, where)
+    d_iter = evaltables.rule_application(ctx, "C02-iteration-is-application", {"frame"})
+
+    def _old_iter():
+        from . import frames
+        fr = frames.analyse(fb)
+        ctx.inst("C02-iteration-is-application", "frame-provenance", {"case": fr.case, "created_in": sorted(fr.makers)})
+        ctx.oblige(not fr.problems)
+        for key, msg, where in fr.problems:
+            ctx.report("C02-iteration-is-application", key, msg, where)
+    ctx.guarded("C02-iteration-is-application", d_iter >= 8 and d_tramp >= 4, _old_iter)
 
     # ------------------------------------------------------------------ C02-no-stack-cycle
     ctx.rule("C02-no-stack-cycle", "the evaluator recurses only through non-tail sub-expressions (edges into eval_expression)")
